@@ -65,6 +65,31 @@ pub fn components(item: &CorpusItem) -> Vec<(String, Comp)> {
         "metadata_unknown_empty".into(),
         Comp::Meta(MetadataBlockData::new_unknown(5, &[]).expect("HARNESS: metadata")),
     ));
+    // a hand-built residual whose Rice quotients include 64, 65, 128 and 200 (zero runs that are exact
+    // multiples of the word size and longer than one word; the encoder rarely produces them on small inputs)
+    {
+        let mut quotients = vec![0u32; 32];
+        let mut remainders = vec![0u32; 32];
+        for (i, q) in [64u32, 65, 1, 128, 0, 200, 63, 129, 3, 64].iter().enumerate() {
+            quotients[2 + i * 3] = *q;
+            remainders[2 + i * 3] = (i as u32) % 4;
+        }
+        if let Ok(r) = Residual::new(0, 32, 2, &[2], &quotients, &remainders) {
+            out.push(("residual_long_zero_runs".into(), Comp::Residual(r)));
+        }
+    }
+    // a stream that mixes precomputed and not-precomputed frames (assembled by hand)
+    if st.frame_count() >= 2 {
+        let mut mixed = Stream::with_stream_info(st.stream_info().clone());
+        for n in 0..st.frame_count() {
+            let mut f = st.frame(n).unwrap().clone();
+            if n % 2 == 0 {
+                f.precompute_bitstream();
+            }
+            mixed.add_frame(f);
+        }
+        out.push(("stream_mixed_precomputed".into(), Comp::Stream(mixed)));
+    }
     for n in 0..st.frame_count() {
         let f = st.frame(n).unwrap();
         out.push((format!("frame{n}"), Comp::Frame(f.clone())));
